@@ -272,8 +272,17 @@ def r1(ctx):
                     f'{fmt} writer: the no-clobber guard tests `{pathparam}` but {what}: guard and creation can refer to '
                     'different files (e.g. "~/x": the literal path does not exist, the expanded one is written)',
                     fi.loc(differs[0][0] if differs else rebinds[0]))
+        elif gnodes and cfg.must_pass(tnodes, gnodes) and not cfg.must_pass([EXIT], tnodes):
+            # a way out of the writer that neither raises nor creates the destination
+            p_ = cfg.path_avoiding(ENTRY, EXIT, tnodes)
+            where = next((cfg.stmt[i] for i in reversed(p_ or []) if i in cfg.stmt), None)
+            ctx.bad(fi.qualname, 'returns-without-writing',
+                    f'{fmt} writer: there is a path on which the call returns normally without creating the destination '
+                    f'(through `{norm(where)[:70] if where is not None else "?"}`): a file that reads back as the regions written '
+                    'does not exist afterwards, an existing destination keeps its old content (also with overwrite=True), and '
+                    'with overwrite=False an existing destination does not raise OSError', fi.loc(where) if where is not None else fi.loc())
         elif gnodes and cfg.must_pass(tnodes, gnodes):
-            ctx.ok(f'{fi.qualname}', 'lexists guard dominates every creating call')
+            ctx.ok(f'{fi.qualname}', 'lexists guard dominates every creating call; every normal return has created the destination')
         else:
             why = ('guard uses os.path.%s, which is false for dangling symlinks' % weak[0]
                    if weak else
